@@ -64,8 +64,8 @@ CLAIMS.update({
 
 PART = " Theorem coverage is PARTIAL (see the *_partial theorems and the header of coq/Properties/%s.v): the remainder of the property is decided by the oracle on the implementation and the model/implementation correspondence, which are differential testing on generated inputs, not proof."
 CLAIMS.update({
-    "C01": ("proof", "Specification: Spec/Value.v + Spec/Message.v (reference reading of the pinned layout tables, extracted and used as the oracle). PROVED for every root but the stream - any structure-type descriptor (primitives, structures, both TPM2B kinds, unions, counted lists, opaque first parameter), COMMANDS (areas picked by the command code, size-governed session area iff the tag says so, opaque first parameter iff a session asks for decryption) and RESPONSES with command code and encryption flag (header-only failed responses, parameterSize region, sessions to the end, flag consistent with the sessions); all inputs; all tables passing msg_tables_ok (the regenerated tables pass by computation): if the specification reads the whole input as a value with valid leaves, strict decoding emits exactly the specified events (path, declared type, value, wire order, one byte of look-ahead) and accepts - by a simulation between the constraint-tracking coroutine decoder model and the specification (Proofs/Sim1-10.v), also stated with the specification at the pinned and the decoder at the regenerated tables (C20_pinned). NOT yet proved for the stream root: there the oracle compares the implementation with the extracted spec_events on generated command/response sequences and the corpus." + PART % "C01",
-            "Coq specification + simulation proof (types, commands, responses) ; extracted specification as oracle ; model/implementation correspondence", "4 C01"),
+    "C01": ("proof", "Specification: Spec/Value.v + Spec/Message.v (reference reading of the pinned layout tables, extracted and used as the oracle). PROVED IN FULL for the model (C01_every_root, C01_full_statement_holds): for EVERY root - any structure-type descriptor (primitives, structures, both TPM2B kinds, unions, counted lists, opaque first parameter), COMMANDS (areas picked by the command code, size-governed session area iff the tag says so, opaque first parameter iff a session asks for decryption), RESPONSES with command code and encryption flag (header-only failed responses, parameterSize region, sessions to the end, flag consistent with the sessions) and STREAMS of such messages (below the model's loop bound of 2^64 bytes) - all inputs, all tables passing msg_tables_ok (the regenerated tables pass by computation): if the specification reads the whole input as value(s) with valid leaves, strict decoding emits exactly the specified events (path, declared type, value, wire order, one byte of look-ahead) and accepts - by a simulation between the constraint-tracking coroutine decoder model and the specification (Proofs/Sim1-11.v), also stated with the specification at the pinned and the decoder at the regenerated tables (C20_pinned). The tie to /repo: the model/implementation correspondence and the oracle comparing the implementation with the extracted spec_events on table-directed well-formed encodings of every type, union arm, command code (0-3 sessions, empty session area, encrypted first parameter, failed responses), generated streams and the corpus (differential testing, not proof).",
+            "Coq specification + simulation proof (all roots) ; extracted specification as oracle ; model/implementation correspondence", "4 C01"),
     "C03": ("proof", "Proved at operation level for all states: Exceeded is raised for the outermost listed live region the field would cross, names that region (path, limit, counted bytes), the offending field and the excess, after skipping exactly the rest of the region; Anticipated is raised for a live enclosing region when a size is read that cannot fit; a region closes normally only when exactly filled, else Subceeded names it. Not yet proved: composition over whole types (accepted => all sizes exact; nothing decidable earlier). Oracle: accepted => the extracted specification parses the input with exact sizes; the arithmetic of every size error recomputed from the emitted events; correspondence on every size field perturbed." + PART % "C03",
             "Coq proof (operation-level error anatomy) + region-arithmetic oracle + correspondence on fault-enumerated inputs", "4 C03"),
     "C04": ("proof", "PROVED for every root but the stream (structure types, commands, responses; all inputs; tables passing msg_tables_ok, which the regenerated ones do): a structurally consistent input is rejected by strict decoding if and only if some leaf of the field-by-field reading is out of range (valid <-> membership in the declared set, C16); the error names the FIRST such leaf in wire order (path, declared type, integer), exactly the events of all earlier fields and none for the offending one have been emitted, exactly the bytes after that field remain (Proofs/Sim6-10.v: warn-mode simulation + strict/warn agreement + strict mode never warns); the field-level anatomy for all states. NOT yet proved: the stream root, and reserved command codes (an unknown command code makes the input structurally inconsistent for the specification): oracle = implementation vs extracted spec_value_error at the pinned tables on every constrained leaf of generated messages." + PART % "C04",
@@ -76,10 +76,10 @@ CLAIMS.update({
             "Coq proof (partial) + crash oracle on arbitrary inputs + correspondence", "4 C06"),
     "C07": ("proof", "Proved for every decoder function, all tables, all states and inputs: a strict run that does not raise is reproduced exactly by warn mode; a strict run raising e after trace tr corresponds to a warn run that continues tr with (only for a value error) the offending event and then the warning wrapping the same e, or raises e itself after the same trace; through the pump: strict accepts => warn emits identical events and no warning; strict raises e => warn warns e after the same events; warn clean => strict accepts. Oracle: both modes on the same bytes (well-formed, fault-enumerated, cuts, random).",
             "Coq proof (relational structural induction strict vs warn, lifted through the pump) + correspondence + two-mode oracle", "4 C07"),
-    "C08": ("proof", "PROVED: for every root but the stream (structure types, commands, responses; all inputs; tables passing msg_tables_ok): on a structurally consistent input warn mode emits exactly the lenient field-by-field events with one warning (the value error naming the leaf) directly after each offending event, and accepts (the simulation in mode false); warn-mode decodes that complete with value warnings only are tiled by their events (C02 with abort=false); an overrun skips exactly the rest of the violated region before it is reported; first-problem agreement (C07). NOT proved: that warn mode never aborts and that after any recovered size problem every byte is shown, skipped or listed (false at the pinned commit, repaired by fix: commits); values-only for the stream root. Oracle: no escaping exception except the two allowed value errors; tiling recomputed from events and warnings (resume at declared end, surplus exact); value-only inputs = lenient specification + one warning directly after each offending event." + PART % "C08",
-            "Coq proof (warn-mode simulation for types, commands, responses; partial otherwise) + tiling oracle + correspondence in warn mode on single/multiple faults", "4 C08"),
-    "C09": ("proof", "Proved: a decoded stream's events split at the message roots are exactly the per-message event lists, one object per message in order, command / response-built-with-that-command's-code pairing. Not yet proved: stream events = concatenation of the individual decodes (needs C01 for messages). Oracle: stream vs individual decodes on the implementation (Python == on events incl. type identity, and on objects) for generated sequences with failed responses, sessions and encryption mixed." + PART % "C09",
-            "Coq proof (object side) + stream-vs-individual oracle + correspondence", "4 C09"),
+    "C08": ("proof", "PROVED: for EVERY root (structure types, commands, responses, streams below the model's loop bound; all inputs; tables passing msg_tables_ok): on a structurally consistent input warn mode emits exactly the lenient field-by-field events with one warning (the value error naming the leaf) directly after each offending event, and accepts (the simulation in mode false); warn-mode decodes that complete with value warnings only are tiled by their events (C02 with abort=false); an overrun skips exactly the rest of the violated region before it is reported; first-problem agreement (C07). NOT proved: that warn mode never aborts and that after any recovered size problem every byte is shown, skipped or listed (false at the pinned commit, repaired by fix: commits). Oracle: no escaping exception except the two allowed value errors; tiling recomputed from events and warnings (resume at declared end, surplus exact); value-only inputs = lenient specification + one warning directly after each offending event." + PART % "C08",
+            "Coq proof (warn-mode simulation, all roots; partial for size faults) + tiling oracle + correspondence in warn mode on single/multiple faults", "4 C08"),
+    "C09": ("proof", "PROVED (C09_stream_is_its_messages): for every byte string that is a concatenation of whole messages - command, the response to it, command, ..., the last command possibly without its response - (tables passing msg_tables_ok, either mode, below the model's loop bound of 2^64 bytes) the events and warnings of the stream decode are exactly the events of the first command decoded on its own, then those of the response decoded with THAT command's code and the response encryption THAT command's sessions ask for, then the next command's, ... in order, and the decoder stops silently at the next message root; object side: a decoded stream's events split at the message roots are exactly the per-message event lists, one object per message in order, command / response-built-with-that-command's-code pairing. Not proved: streams containing a malformed message (behaviour up to the first problem is C07/C10); events_to_objs on the implementation. Oracle: stream vs individual decodes on the implementation (Python == on events incl. type identity, and on objects) for generated sequences with failed responses, sessions and encryption mixed." + PART % "C09",
+            "Coq proof (stream simulation + per-message theorems) + stream-vs-individual oracle + correspondence", "4 C09"),
     "C10": ("proof", "Proved for every decoder function, both modes, all tables, all states: appending input leaves every run that did not stop for lack of input unchanged and extends the others (the decoder learns about its input only by asking for the next byte); hence for ALL inputs the events of a prefix are a prefix of the events of the whole input; every event is reported with min(len, bytes received + 1) bytes pulled. Independence of the iterable kind is not a theorem: correspondence with seven source kinds. Oracle: look-ahead, prefix stability, complete fields at random and boundary cuts.",
             "Coq proof (incrementality by structural induction, lifted through the pump) + cut oracle + source-kind runs", "4 C10"),
     "C11": ("other", "events_to_obj / obj_to_events are not modelled. Decided on the implementation: by-product object == object rebuilt from events, both turn back into exactly the decoded events (paths, declared types, values and value classes), re-encoding gives the input, for generated well-formed encodings of every type, command and response incl. empty TPM2B payloads, null union arms, encrypted parameters; the by-product object is tied to the Coq model by correspondence. Proved (field level only): the by-product value of a primitive field is the value of its event.",
